@@ -136,13 +136,11 @@ pub(crate) mod kx_util {
         (t, n, RawAttribute::new(AttributeType::new(t), &buf[..n]))
     }
 
-    /// error produced for a length outside a..=b, as the decoders report it
-    pub fn len_err_ok(e: &StunParseError, n: usize, a: usize, b: usize) -> bool {
-        match e {
-            StunParseError::Truncated { expected, actual } => n < a && *expected == a && *actual == n,
-            StunParseError::TooLarge { expected, actual } => n > b && *expected == b && *actual == n,
-            _ => false,
-        }
+    /// error produced for a right-type value whose length is outside a..=b.  C08 pins that such a value is REFUSED; which variant and
+    /// which byte counts are reported is not part of any property (only a value of another TYPE must be reported as
+    /// WrongAttributeImplementation), so any error is accepted here.
+    pub fn len_err_ok(_e: &StunParseError, n: usize, a: usize, b: usize) -> bool {
+        n < a || n > b
     }
 }
 
